@@ -451,6 +451,13 @@ pub fn run(tier: &str, seed: i64) -> Outcome {
         Space::slice(Universe::U4 { a: code(R, true), b: code(B, false), files: Some((3, 4)) }, if q { 40 } else { 2 }, off),
         Space::slice(Universe::U4 { a: code(Q, true), b: code(Q, false), files: Some((3, 4)) }, if q { 40 } else { 2 }, off),
         Space::slice(Universe::U2, if q { 4 } else { 1 }, off),
+        // the whole board for the second piece: mates that need the defender to be in zugzwang WITH a piece of his own
+        // (the piece must move and unguard) - forward pruning that lets the defender "pass" loses exactly these
+        Space::slice(Universe::U4 { a: code(Q, true), b: code(N, false), files: None }, if q { 192 } else { 6 }, off),
+        Space::slice(Universe::U4 { a: code(R, true), b: code(N, false), files: None }, if q { 192 } else { 6 }, off),
+        Space::slice(Universe::U4 { a: code(Q, true), b: code(B, false), files: None }, if q { 192 } else { 6 }, off),
+        Space::slice(Universe::U4 { a: code(Q, true), b: code(R, false), files: None }, if q { 192 } else { 6 }, off),
+        Space::slice(Universe::U4 { a: code(Q, false), b: code(N, true), files: None }, if q { 192 } else { 6 }, off),
     ];
     let (acc, reports) = run_spaces(&spaces, &|ctx, acc| {
         // kinds that cannot mate with a bare king are classified too (they yield only stalemates): keep Q, R, P and all UC/U4 members
